@@ -66,7 +66,7 @@ PROPS["C04"] = dict(
     pkgs=[KS, "api"], level="exploration", death_is_violation=True, env={"VERIF_LOGLEVEL": "trace"},
     quick=dict(checks=240, shards=16, timeout=500),
     thorough=dict(checks=6000, shards=16, timeout=2400),
-    technique="property-based testing: rapid-generated wallet histories; byte search of store files, logical store dump, exports and trace-level logs for secrets collected in-package, with positive control and decrypt-chain oracle",
+    technique="property-based testing: rapid-generated wallet histories; byte search of store files, logical store dump, exports and trace-level logs for secrets collected in-package, with positive control and decrypt-chain oracle; the API server's wallet handlers (api/wallets.go) driven on a real manager with debug logging and the same scan of log, export and store files",
     level_text="After every step of generated histories every artefact the property names (store bytes, exports, logs) is searched for every secret that exists at that moment, in the encodings a careless write would produce; the scanner is validated by a positive control in the same run. Exploration: finds leaks of the searched encodings only.",
     level_note="Trusted: the list of encodings searched (raw, hex, HEX, Go %v, decimal, base58 xprv); secrets are collected from the in-memory fields of the pinned tree and recomputed from seeds with the package's own derivation; secretbox/scrypt assumed sound.",
     assumptions=["a leak in an encoding outside the searched set (e.g. base64, compressed) would be missed", "log output is captured through the node's logging package at trace level into a scratch directory"],
@@ -108,7 +108,7 @@ PROPS["C16"] = dict(
     thorough=dict(checks=240000, shards=16, timeout=2400, fuzz_seconds=240),
     fuzz=dict(pkg="fractal/protocol", target="FuzzVerif_C16", workers=8,
               rule="[native-fuzz] go test -fuzz (coverage guided, thorough tier only) over byte strings, corpus = valid encodings of all six types and hostile constants with every type prefix; same oracle as hostile-bytes; evaluations = executions, non-trivial = inputs that increased coverage"),
-    technique="property-based testing: round trip of generated messages of all six types; totality on arbitrary bytes and structure-aware JSON mutations with recover-inside-property; re-encode fixed point; measured allocation bound at the receive limit",
+    technique="property-based testing: round trip of generated messages of all six types; totality on arbitrary bytes and structure-aware JSON mutations with recover-inside-property; re-encode fixed point; measured allocation bound at the receive limit; thorough tier: Go native coverage-guided fuzzing (go test -fuzz) of DecodeMessage with the same oracle",
     level_text="Generated message values must survive Encode/Decode on every wire field; hostile inputs (random bytes, one structural mutation of a valid encoding, oversized inputs up to 2 MiB) must yield a message or an error, never a panic, and accepted inputs must be well-formed (re-encodable fixed point). Exploration.",
     level_note="Trusted: mass-core chiapos (BLS element parsing through cgo) is part of the decoded path and is exercised, not modelled; encoding/json.",
     assumptions=["equality is judged on the fields that travel on the wire (WorkSpaceProof.Ordinal/Error are not transmitted)"],
@@ -163,7 +163,7 @@ PROPS["C11"] = dict(
     pkgs=[CAP], level="exploration", death_is_violation=True,
     quick=dict(checks=480, shards=16, timeout=600),
     thorough=dict(checks=9600, shards=16, timeout=2400),
-    technique="property-based testing: generated plot-directory contents (real massdb.v1 files with one mutation each) judged by an independent classifier; generated remove/delete histories with directory diff before/after every operation",
+    technique="property-based testing: generated plot-directory contents (real massdb.v1 files with one mutation each) judged by an independent classifier; generated remove/delete histories with directory diff before/after every operation; concurrent remove/delete against mine/stop pairs judged against the two sequential orders",
     level_text="A keeper constructed on generated directories must index exactly what an independent header parser/classifier accepts (once each, right state); generated single and bulk remove/delete actions on spaces in every state must be refused while plotting/mining and erase exactly the space's files otherwise. Exploration.",
     level_note="Trusted: the classifier in zz_verif_c11_test.go (written from the file-format comment in hashmap.go and the statement); plotting state is forced white-box (the guard logic is under test, not the plotter).",
     assumptions=["file names are judged in the canonical lower-case form the node writes itself", "progress is fabricated by writing checkpoints into headers (no table data is needed for indexing)"],
@@ -175,7 +175,7 @@ PROPS["C09"] = dict(
     pkgs=[CAP, SKC], level="exploration", death_is_violation=True, engine="rapid-harness+gate-scheduler",
     quick=dict(checks=4800, shards=16, timeout=600),
     thorough=dict(checks=80000, shards=16, timeout=2400),
-    technique="stateful property-based testing with an owned schedule: rapid generates sequences of API actions, plotter gate releases (hook H3) and scripted plot outcomes; invariants and the documented transition relation are checked under the state lock after every step",
+    technique="stateful property-based testing with an owned schedule: rapid generates sequences of API actions, plotter gate releases (hook H3) and scripted plot outcomes; invariants and the documented transition relation are checked under the state lock after every step; concurrent two-caller action pairs judged against the two sequential orders; the chia keeper (skchia) instantiated on a scripted chia backend with provoked start/stop-all schedules",
     level_text="The plotter goroutine is parked at every step until the generated schedule releases it, plots are scripted (complete/abort), so the interleavings of requests with plotter steps are explored systematically by generation rather than left to the Go scheduler; every observation is judged against invariants and the documented transition table. Exploration over schedules of <=22 steps and <=3 spaces.",
     level_note="Trusted: the scripted plot-DB backend mirrors MassDBV1's contract (Plot blocks until outcome or stop, StopPlot waits, Delete refuses while plotting); the model in zz_verif_c09_test.go. The chia keeper (skchia) is instantiated on a scripted chia backend without gates (no hooks in that package): only ready/mining are reachable there.",
     assumptions=["requests queued at the moment the keeper is stopped may be dropped or kept (unspecified): the model accepts both", "skchia is not instantiated by this check"],
@@ -185,7 +185,7 @@ PROPS["C13"] = dict(
     pkgs=[CAP, MDB, "poc/engine", SKC, "poc/engine.v2"], level="exploration", death_is_violation=True, engine="rapid-harness+gate-scheduler",
     quick=dict(checks=640, shards=16, timeout=900),
     thorough=dict(checks=12000, shards=16, timeout=2400),
-    technique="property-based generation of concurrent programs against the keeper (scripted plot backend, plotter gates H3) and against a held real massdb.v1 plot (H2); verdicts from 'everything released, still pending' plus goroutine stacks, recover in callers, process-death attribution",
+    technique="property-based generation of concurrent programs against the keeper (scripted plot backend, plotter gates H3) and against a held real massdb.v1 plot (H2); verdicts from 'everything released, still pending' plus goroutine stacks, recover in callers, process-death attribution; writers/readers/cancellation programs on the proof and quality hand-over types (engine, engine.v2); concurrent programs, reader floods and stop/start cycles on the chia keeper",
     level_text="Generated concurrent callers, floods around the 1024-slot hand-off channel, keeper stop/start cycles and a stop inside the popped-but-not-yet-plotting window; a call that is still pending after every plot has an outcome and all gates are open is reported with the stacks of the blocked keeper goroutines. Exploration; interleavings inside the callers are sampled.",
     level_note="Trusted: scripted backend contract; watchdog of 15 s only in combination with stack evidence; goroutine baseline comparison.",
     assumptions=["liveness is decided as 'did not return although nothing it could wait for is outstanding'", "skchia is not instantiated"],
@@ -205,7 +205,7 @@ PROPS["C17"] = dict(
     pkgs=["fractal"], level="exploration", death_is_violation=True,
     quick=dict(checks=96, shards=16, timeout=900),
     thorough=dict(checks=1600, shards=16, timeout=2400),
-    technique="property-based generation of cluster topologies and task histories run in-process (real TCP on loopback for the relay); delivery oracle on the content produced by scripted keepers; stop/remove verdicts with goroutine stacks",
+    technique="property-based generation of cluster topologies and task histories run in-process (real TCP on loopback for the relay); delivery oracle on the content produced by scripted keepers; stop/remove verdicts with goroutine stacks; generated loss of the relay uplink (TCP forwarder cut) with and without waiting for the relay's redial",
     level_text="Generated topologies (local collectors, pool + relay + collectors behind it) and task histories are run for real; oracles are content based (which keeper served which task, what arrived on which task channel, tagged with which collector) plus 'call did not return' verdicts backed by stacks. Real time (750 ms collector ticker) bounds the number of cases. Exploration; subscribe-during-broadcast interleavings are not scheduled.",
     level_note="Trusted: scripted keeper; mass-core difficulty function (targets are chosen so low that every quality passes). No hooks are added to fractal (they would have to rewrite lines), so interleavings inside its goroutines are sampled.",
     assumptions=["upper time bounds are never verdicts, except the real waiter's own 5 s bound for targeted reports on an otherwise idle loopback topology", "exactly-once is judged in sequenced histories only"],
